@@ -5,10 +5,11 @@ ROOT = os.path.dirname(os.path.dirname(os.path.abspath(__file__)))
 sys.path.insert(0, os.path.join(ROOT, "check", "props"))
 ids = [json.loads(l)["id"] for l in open(os.path.join(ROOT, "properties.jsonl"))]
 na = json.load(open(os.path.join(ROOT, "check", "not_applicable.json")))
+claimed = json.load(open(os.path.join(ROOT, "check", "claimed.json")))
 checks, nal = [], []
 for pid in ids:
     p = os.path.join(ROOT, "check", "props", pid + ".py")
-    if os.path.exists(p) and pid not in na:
+    if os.path.exists(p) and pid not in na and pid in claimed:
         m = importlib.import_module(pid)
         mf = m.MANIFEST
         checks.append(dict(
